@@ -10,6 +10,7 @@ CHECKS = {
  "C10": ("other", "partial proof: the stall branch of calculateTargetPwm (unchanged request, average <= 0 => request+1, floor+1, average re-armed to 1; at the maximum => ErrFanStalledAtMaxPwm, which UpdateFanSpeed returns without writing) and the RPM monitor step (file/cmd fans: the average is the last reading, so one zero reading suffices; non-negativity; floor and last request untouched) are discharged. The necessary condition for a bounded response on hwmon fans - an average in (0,1] collapses to 0 on the next zero reading - fails (known finding with a replay: no raise in 2000 polls). The geometric decay argument linking the per-poll clauses to 'tens of polls' is a meta-argument, not machine-checked", BASE_NOTE),
  "C12": ("proof", "all obligations of FindClosest/getClosest (nearest, member, exact, index safety, overflow, termination), SortedKeys/ExtractKeysWithDistinctValues (ascending, first key of every run of equal outputs, characterised without gaps), updateDistinctPwmValues and setPwm (the only write is pwmMap[nearest supported input]) are discharged for all maps and requests", BASE_NOTE + "; sort.Ints/sort.Slice contract assumed"),
  "C01": ("proof", "every obligation of the regulation step (calculateTargetPwm, setPwm, UpdateFanSpeed, both control loops, all fan backends) is discharged: the request lies in [fan min, fan max], the only PWM write of a cycle is pwmMap[nearest supported input of that request], hence in 0..255 for maps with outputs in 0..255; holds for arbitrary curve values, loop states and RPM histories because the controller invariant ctrlInv is preserved by every step (after the fix: commit 9d733a1)", BASE_NOTE + "; curve evaluation abstracted to an arbitrary int"),
+ "C06": ("other", "partial proof. Linear curves: value in 0..255 for every finite sensor average; min/max form equals the documented ramp expression bit-for-bit (congruence over the rounded-real model) with saturation at both ends; step form: CalculateInterpolatedCurveValue is within the step speeds' hull, returns the smallest/largest step's speed outside the range, the step's own speed at a step temperature, and interpolates on the unique adjacent pair (segment identification proved; the in-segment formula itself is attempted, not counted). Function curves: 0..255 for all six types and 1..100000 members, and value == min(255, sum), max(0, first - rest), sum div n, minimum, maximum as stated (delta's exact value attempted, not counted), compositional through the SpeedCurve.Evaluate interface contract. PID curves: range and clamped-term formula for every non-NaN PID term; one known finding (NaN term)", BASE_NOTE + "; registry lookups (GetSensor/GetSpeedCurve) assumed to return registered objects; step temperatures within +-1e6, speeds 0..255"),
  "C08": ("proof", "updateSensor (all four sensor kinds): a poll that returns an error leaves the smoothed value bit-identical; a successful poll yields a finite average inside [min(old, reading), max(old, reading)] for window sizes >= 2 (float64 modelled as rounded reals; readings and averages up to 1e300, |reading - average| >= 1e-290 or equal); every GetValue returns an error when the underlying read failed and only finite values (after fixes 8501fbc, 061db47); UpdateSimpleMovingAvg has a fixpoint at old == new. Not covered: the geometric rate (1-1/n) and window size 1 (double rounding)", BASE_NOTE + "; ParseFloat may return any float on success; the history-level hull follows from the per-poll hull by induction (meta-argument, DESIGN 2.9)"),
  "C13": ("other", "partial proof: ComputePwmBoundaries returns the lowest PWM reaching the highest whole-RPM value (255 when nothing spins) and the lowest PWM with non-zero RPM (unbounded proof with loop invariants over the sorted key list, for all finite data maps with keys 0..255); AttachFanRpmCurveData refuses nil/empty data without touching the limits, never replaces a configured min/start/max (invariant hwCfg, established by NewFan), derives max and - on a first attachment - start from the data; GetMinPwm is 0 without neverStop. One known finding: on a repeated attachment the previously measured start PWM is kept", BASE_NOTE + "; sort.Ints contract assumed; RPM values finite and below 1e15"),
  "C18": ("proof", "CheckFilePermissionsForExecution: err == nil exactly when the path resolves, its metadata can be read, the owner is root, group-write implies group root and others cannot write - one proof for all uid/gid/mode combinations and for symlinks (the predicate is about the resolved path); SafeCmdExecution starts a process only after the check passed in the same call and starts nothing when it fails (ghost counter of started processes); no nil dereference on any stat outcome (after fix c18558b)", BASE_NOTE + "; OS model: EvalSymlinks/Stat/FileInfo.Sys/Mode relate to ghost file metadata"),
